@@ -6,7 +6,7 @@ from rv.world import World, SpyBreaker, summarize, segments
 META = dict(
     level="model_checking",
     bounds=dict(
-        quick="Policy/AsyncPolicy call+execute (and RetryPolicy sugar) with a retry component and a spy breaker: 2 "
+        quick="Policy/AsyncPolicy call+execute with a retry component and a spy breaker: 2 "
               "consecutive calls per policy object, the first with N=3 scripted attempts (later calls: 1) over success, {TRANSIENT, PERMANENT} x "
               "{exception, result}, a builtin TimeoutError, AbortRetryError, CancelledError; symbolic max_attempts, abort_if answers, sleep-handler "
               "decisions (SLEEP/DEFER/ABORT); async: CancelledError thrown at a solver-chosen await point; Policy/AsyncPolicy "
@@ -159,7 +159,7 @@ def jobs(tier):
     out = []
     kinds = ["ok", "exc", "res", "abort_exc", "cancelled", "timeout_exc"]
     wall = 600 if q else 3000
-    entries = ["policy.call", "policy.execute", "apolicy.call", "apolicy.execute"] + ([] if q else ["rp.call", "rp.execute", "arp.call", "arp.execute"])
+    entries = ["policy.call", "policy.execute", "apolicy.call", "apolicy.execute"]  # (RetryPolicy sugar takes no breaker)
     for entry in entries:
         for o1 in range(len(kinds)):
             out.append(dict(name=f"run:{entry}:o1={kinds[o1]}", harness="rv.props.c09:h_run",
